@@ -86,6 +86,21 @@ CHECKS["C06"] = dict(
     design="DESIGN.md section 3 C06 and Build status",
 )
 
+CHECKS["C12"] = dict(
+    category="proof",
+    technique="dynamic symbolic execution (pysym) of the whole front end on module templates whose definition and reference sites are filled from finite choice variables; the scoping rule of the property text is the oracle, evaluated per path",
+    text="Finite domain, enumerated completely (counted obligations): types named Aa/Bb/absent at four definition sites (module, Outer, "
+         "Outer.Mid, Side) plus a local type named like a prelude type, referenced from three positions in eight forms (bare, dotted, prelude "
+         "name); own fields x abbreviation x reference; members through a dot; enum values qualified/bare/nested; duplicates in one scope vs. "
+         "equal names in different scopes; one import (qualified, bare, wrong alias, clash with a local name); `this`.  Per combination the real "
+         "front end must accept exactly when one definition is visible under the rule, bind the reference to that definition's canonical "
+         "name, and give every definition a unique canonical name that ir_util.find_object maps back to the defining node.",
+    note="The solver decides only the feasibility of the choice paths; the verdict per combination is the oracle predicate over the choices "
+         "(same style as the module-level harnesses of C13/C14).  Outside: deeper nesting and longer paths than the templates, parameters, "
+         "$next, several imports.  The oracle is the rule as stated in the property text (the language reference does not spell it out).",
+    design="DESIGN.md Build status (C12) and section 4",
+)
+
 CHECKS["C09"] = dict(
     category="model_checking",
     technique="bisimulation of the two LR table sets decided by z3's Datalog fixed-point engine over the product of the pushdown automata",
@@ -187,9 +202,6 @@ NOT_APPLICABLE = {
     "C11": "the formatter works on parse trees with str.format/join/ljust/rstrip over token texts and list surgery: built-ins that "
            "concretise any symbolic string; the only solver-expressible fragment (_columnize width arithmetic) decides neither token "
            "preservation nor idempotence (DESIGN.md section 4)",
-    "C12": "every decision of the resolver is a dictionary lookup keyed by a name string (hash() concretises a symbolic name); driven "
-           "with equality-pattern proxies the paths are exactly the set partitions of the names and the oracle a second resolver -- "
-           "enumeration, with the solver deciding nothing (DESIGN.md section 4)",
     "C16": "the quantifier is over free text through tokenizer, a 16k-state parser, twelve IR passes and the back end; symbolic "
            "execution of that pipeline does not terminate on inputs long enough to pass the parser, and short inputs do not reach "
            "the passes where the risk lies; crash-freedom is an obligation inside the units of C05, C13, C14, C15 instead "
@@ -237,7 +249,7 @@ def main():
             "add_only": True,
         },
         "engines": [
-            {"name": "pysym", "path": "vf/pysym.py", "serves_properties": ["C05", "C13", "C14", "C15", "C08", "C10"],
+            {"name": "pysym", "path": "vf/pysym.py", "serves_properties": ["C05", "C06", "C12", "C13", "C14", "C15", "C08", "C10"],
              "kind_free_text": "dynamic symbolic executor for /repo's Python functions (z3 Int terms, eager forking, re-execution DFS)"},
             {"name": "ll2smt", "path": "vf/ll2smt.py", "serves_properties": ["C01", "C02", "C03", "C04", "C06", "C19", "C20"],
              "kind_free_text": "clang -O2 LLVM IR of runtime/generated headers -> z3 bit-vector/array terms, path forking"},
